@@ -27,6 +27,10 @@ class InvariantBroken(Exception):
     pass
 
 
+class OperationReturnedNothing(Exception):
+    """an operation on quantities neither raised nor produced a value: it must yield a valid quantity or raise ValueError"""
+
+
 def _valid(kind, v):
     if isinstance(v, bool) or not isinstance(v, (int, float)):
         return False
@@ -140,6 +144,8 @@ def run_program(ctx, idx, tier, extreme=False):
                     res = bo * pool[a]
                 else:
                     res = {'+': lambda x, y: x + y, '-': lambda x, y: x - y, '*': lambda x, y: x * y, '/': lambda x, y: x / y}[op](pool[a], bo)
+                if res is None:
+                    raise OperationReturnedNothing()
                 if hasattr(res, 'unit'):
                     pool[target] = res
             elif r < 0.60:
@@ -147,12 +153,18 @@ def run_program(ctx, idx, tier, extreme=False):
                 k = type(pool[a]).__name__
                 u = rng.choice(SI.units(k))
                 desc = ['selfdiff', a, u]
-                pool[target] = pool[a] - pool[a].to(u)
+                res = pool[a] - pool[a].to(u)
+                if res is None:
+                    raise OperationReturnedNothing()
+                pool[target] = res
             elif r < 0.68:
                 a = rng.choice(names)
                 f = rng.choice(['abs', 'neg'])
                 desc = [f, a]
-                pool[target] = abs(pool[a]) if f == 'abs' else -pool[a]
+                res = abs(pool[a]) if f == 'abs' else -pool[a]
+                if res is None:
+                    raise OperationReturnedNothing()
+                pool[target] = res
             else:
                 a = rng.choice(names)
                 k = type(pool[a]).__name__
@@ -179,6 +191,11 @@ def run_program(ctx, idx, tier, extreme=False):
         except ZeroDivisionError:
             ctx.count('exc_ZeroDivisionError')
             had_reject = True
+        except OperationReturnedNothing:
+            prog.append(desc)
+            ctx.violation('C19:operation-returned-nothing', {'step': step, 'op': desc, 'operands': {k_: [type(pool[k_]).__name__, pool[k_].value, pool[k_].unit] for k_ in desc[1:] if isinstance(k_, str) and k_ in pool},
+                                                             'program_tail': prog[-6:]}, case)
+            return
         except OverflowError:
             ctx.count('exc_OverflowError')
         except Exception as ex:
